@@ -1,4 +1,5 @@
 import CbiVerif.Lemmas.Exclude
+import CbiVerif.Lemmas.ExpandPP
 /-! # C10 — excluding files removes their lines from the counts and changes nothing else
 
 Model: `CbiVerif/Model/Exclude.lean` (`find` with an explicit tree cache and language class per file,
@@ -165,5 +166,29 @@ theorem not_attributionIndependentUnguarded : ¬ AttributionIndependentUnguarded
   intro h
   obtain ⟨S, n, cfg, cb₁, cb₂, h₁, h₂, _, _, _, _, hne⟩ := d19_dependency
   exact hne (h S n cb₁ cb₂ cfg h₁ h₂)
+
+/-! ## the instance the driver runs: the value of a controlling expression -/
+
+/-- In the semantics `Exclude.sem fs` (what op `c10find` and, through `FindCache.semC`, op `c08find` execute) an `#if`/`#elif`
+has the value `PP.condValue`: the evaluation by `Eval.evaluatePP` (the C02 evaluator) of the expansion by the total step
+machine `MX.cbiExpand` (the model of the C03 theorems) under the platform's macro table — the same definition as in the
+single-file model of C01 and the multi-file model of C04; no `partial def` is executed. -/
+theorem cond_is_expand_then_eval (l : Local) (toks : List Tok) (h : l.err = none) :
+    evalCondL l toks =
+      match CbiVerif.MX.cbiExpand l.plat.tbl toks with
+      | .ok ts => (match CbiVerif.Eval.evaluatePP ts with | .ok b => (b, l) | .error e => (false, l.fail e))
+      | .error e => (false, l.fail e)
+      | .fuel => (false, l.fail (.other "ModelOutOfFuel")) := by
+  unfold evalCondL
+  rw [h, condValue_eq]
+  cases CbiVerif.MX.cbiExpand l.plat.tbl toks with
+  | ok ts => simp only []; cases CbiVerif.Eval.evaluatePP ts <;> rfl
+  | error e => rfl
+  | fuel => rfl
+
+/-- non-vacuity: `#if A > 1 && defined(B)` under `-DA=2 -DB` -/
+example : (evalCondL { plat := { name := "p", tbl :=
+      [("A", ⟨"A", none, false, false, [], [⟨.num, "2", false, true⟩]⟩), ("B", ⟨"B", none, false, false, [], [⟨.num, "1", false, true⟩]⟩)] } }
+    (tokenize "A > 1 && defined(B)")).1 = true := by decide +kernel
 
 end CbiVerif.C10
